@@ -19,8 +19,10 @@ import traceback
 from pathlib import Path
 
 VERIF = Path(__file__).resolve().parents[2]
-EVIDENCE = VERIF / "evidence"
 REPLAYS = VERIF / "replays"
+# evidence committed under /verif/evidence always describes runs against /repo itself; a run
+# pointed at a scratch worktree (VERIF_REPO, seeded-change tools) writes elsewhere
+EVIDENCE = (REPLAYS / "evidence_scratch") if os.environ.get("VERIF_REPO") else (VERIF / "evidence")
 KNOWN = VERIF / "known_findings.json"
 
 TRUSTED_BASE_COMMON = [
@@ -108,7 +110,7 @@ class Ctx:
     # -- finishing -------------------------------------------------------
     def finish(self):
         REPLAYS.mkdir(exist_ok=True)
-        EVIDENCE.mkdir(exist_ok=True)
+        EVIDENCE.mkdir(parents=True, exist_ok=True)
         known_keys = {f["key"]: f for f in self.known.get("findings", []) if f.get("property") == self.prop}
         violations = 0
         known_seen = []
